@@ -1536,10 +1536,33 @@ _vbi_cache_put_page		(vbi_cache *		ca,
 		subno_mask = 0x000F;
 	}
 
-	old_cp = page_by_pgno (ca, cn,
-			       cp->pgno,
-			       subno & subno_mask,
-			       subno_mask);
+	old_cp = NULL;
+
+	if (0 == subno_mask) {
+		cache_page *cp1, *cp2;
+
+		/* We store one version. If other versions are cached
+		   (the page had subpages before) replace the one with
+		   our subno, lest there are two of them. (Not
+		   page_by_pgno(), we may still fail.) */
+		FOR_ALL_NODES (cp1, cp2, ca->hash + hash (cp->pgno),
+			       hash_node) {
+			if (cp1->pgno == cp->pgno
+			    && cp1->subno == subno
+			    && cp1->network == cn) {
+				old_cp = cp1;
+				break;
+			}
+		}
+	}
+
+	if (NULL == old_cp) {
+		old_cp = page_by_pgno (ca, cn,
+				       cp->pgno,
+				       subno & subno_mask,
+				       subno_mask);
+	}
+
 	if (NULL != old_cp) {
 		if (CACHE_DEBUG) {
 			fputs ("is cached ", stderr);
